@@ -57,6 +57,8 @@ class C03(Prop):
                     op = {"id": opid, "s": s, "op": "get", "oid": rng.choice(oid_list_that_fits(rng, rows))}
                 elif k == "get_many":
                     op = {"id": opid, "s": s, "op": "get_many", "oids": oid_list_that_fits(rng, rows)}
+                    if rng.random() < 0.3:
+                        op["as"] = rng.choice(["tuple", "gen"])
                 elif k == "big":
                     # around or beyond the buffer: many long OIDs
                     n = rng.choice([100, 200, 300, 400])
